@@ -34,6 +34,8 @@ def judge(x, n, k, drop):
         return ['deadlock']
     if x.rc == 79:
         return ['livelock_horizon']
+    if x.rc == 76:
+        return ['mutex_reinitialised_while_locked']
     if x.rc == 78:
         return ['HARNESS:replay_divergence']
     if x.san:
